@@ -226,5 +226,161 @@ theorem rank_parse (fen : Bytes) (rank : Nat) (hrank : rank ≤ 7) :
     exact posLoop_congr rfl (by simp; omega) (by simp only [List.length_cons]; congr 1; omega)
       (by simp only [placeCells])
 
+
+/-! ### what has been placed: the three encodings describe the part of the placement read so far -/
+
+/-- the part of placement `g` on the ranks above `r` and on the files `< f` of rank `r`. -/
+def below (g : Cfg) (r f : Nat) : Cfg :=
+  fun s => if r < s / 8 ∨ (s / 8 = r ∧ s % 8 < f) then g s else none
+
+/-- the parser's writes leave the scalar attributes alone. -/
+def SameScalars (b b' : Board) : Prop :=
+  b'.hashes = b.hashes ∧ b'.fullMoves = b.fullMoves ∧ b'.stm = b.stm ∧ b'.ep = b.ep ∧
+  b'.castles = b.castles ∧ b'.fifty = b.fifty
+
+theorem SameScalars.refl (b : Board) : SameScalars b b := ⟨rfl, rfl, rfl, rfl, rfl, rfl⟩
+
+theorem SameScalars.trans {a b c : Board} (h1 : SameScalars a b) (h2 : SameScalars b c) : SameScalars a c := by
+  obtain ⟨a1, a2, a3, a4, a5, a6⟩ := h1
+  obtain ⟨b1, b2, b3, b4, b5, b6⟩ := h2
+  exact ⟨b1.trans a1, b2.trans a2, b3.trans a3, b4.trans a4, b5.trans a5, b6.trans a6⟩
+
+theorem place_scalars (b : Board) (c : Color) (p : Piece) (s : Nat) : SameScalars b (place b c p s) :=
+  ⟨rfl, rfl, rfl, rfl, rfl, rfl⟩
+
+theorem placeCells_scalars (rank : Nat) : ∀ (cells : List (Option (Color × Piece))) (f : Nat) (b : Board),
+    SameScalars b (placeCells b rank f cells)
+  | [], _, b => SameScalars.refl b
+  | none :: cs, f, b => placeCells_scalars rank cs (f + 1) b
+  | some (c, p) :: cs, f, b => (place_scalars b c p _).trans (placeCells_scalars rank cs (f + 1) _)
+
+theorem place_eq_addPiece (b : Board) (c : Color) (p : Piece) (s : Nat) (hp : p ≠ Piece.none) :
+    place b c p s = (addPiece zeroKeys b c p s).1 := by
+  simp [place, addPiece, hp]
+
+theorem cellsOf_succ (g : Cfg) (r f n : Nat) : cellsOf g r f (n + 1) = g (8 * r + f) :: cellsOf g r (f + 1) n := by
+  simp [cellsOf, List.range'_succ]
+
+theorem placeCells_rep (g : Cfg) (hg : ∀ s c, g s ≠ some (c, Piece.none)) (r : Nat) (hr : r ≤ 7) :
+    ∀ (n f : Nat) (b : Board), f + n ≤ 8 → Rep b (below g r f) →
+      Rep (placeCells b r f (cellsOf g r f n)) (below g r (f + n))
+  | 0, f, b, _, h => by simpa [cellsOf, placeCells] using h
+  | n + 1, f, b, hlen, h => by
+    rw [cellsOf_succ]
+    have hsq : 8 * r + f < 64 := by omega
+    have hstep : ∀ s, s ≠ 8 * r + f → below g r (f + 1) s = below g r f s := by
+      intro s hs
+      unfold below
+      have : (s / 8 = r ∧ s % 8 < f + 1) ↔ (s / 8 = r ∧ s % 8 < f) := by omega
+      simp only [this]
+    have hat : below g r (f + 1) (8 * r + f) = g (8 * r + f) := by
+      have : (8 * r + f) / 8 = r ∧ (8 * r + f) % 8 < f + 1 := by omega
+      simp only [below]
+      rw [if_pos (Or.inr this)]
+    have hnone : below g r f (8 * r + f) = none := by
+      have : ¬ (r < (8 * r + f) / 8 ∨ ((8 * r + f) / 8 = r ∧ (8 * r + f) % 8 < f)) := by omega
+      simp only [below]
+      rw [if_neg this]
+    have hfin : f + (n + 1) = (f + 1) + n := by omega
+    rw [hfin]
+    cases hcell : g (8 * r + f) with
+    | none =>
+      simp only [placeCells]
+      apply placeCells_rep g hg r hr n (f + 1) b (by omega)
+      apply h.congr_cfg
+      intro s
+      by_cases hs : s = 8 * r + f
+      · subst hs; rw [hat, hnone, hcell]
+      · rw [hstep s hs]
+    | some cp =>
+      obtain ⟨c, p⟩ := cp
+      have hp : p ≠ Piece.none := by
+        intro e; subst e; exact hg _ _ hcell
+      simp only [placeCells]
+      apply placeCells_rep g hg r hr n (f + 1) _ (by omega)
+      rw [place_eq_addPiece _ _ _ _ hp]
+      apply (rep_add zeroKeys h hsq c hp hnone).congr_cfg
+      intro s
+      by_cases hs : s = 8 * r + f
+      · subst hs; rw [hat, upd_same, hcell]
+      · rw [hstep s hs, upd_other _ _ _ _ hs]
+
+theorem cellsOf_real (g : Cfg) (hg : ∀ s c, g s ≠ some (c, Piece.none)) (r f n : Nat) :
+    ∀ c p, some (c, p) ∈ cellsOf g r f n → p ≠ Piece.none := by
+  intro c p hm
+  simp only [cellsOf, List.mem_map] at hm
+  obtain ⟨x, _, hx⟩ := hm
+  intro e; subst e
+  exact hg _ _ hx
+
+theorem cellsOf_length (g : Cfg) (r f n : Nat) : (cellsOf g r f n).length = n := by simp [cellsOf]
+
+/-! ### the whole field -/
+
+/-- **parsing the printed placement**: started at file 0 of rank `r` on a board that already
+    holds the ranks above `r` of the placement `g`, the loop of `position()` consumes the bytes of
+    the ranks `r … 0` (each run digit is `1..8`, each `/` steps one rank down), stops at the space
+    and leaves a board whose three encodings describe `g`; no other attribute is touched. -/
+theorem placement_parse (fen : Bytes) (g : Cfg) (hg : ∀ s c, g s ≠ some (c, Piece.none)) :
+    ∀ (r : Nat), r ≤ 7 → ∀ (b : Board) (ix fuel : Nat) (t : List UInt8),
+    rest fen ix = placeBytes g r ++ 32 :: t → Rep b (below g r 0) →
+    ∃ b', positionLoop fen ((placeBytes g r).length + (fuel + 1)) ix (r : Int) 0 b =
+        .ok ⟨ix + (placeBytes g r).length, b'⟩ ∧ Rep b' (below g 0 8) ∧ SameScalars b b'
+  | 0, hr, b, ix, fuel, t, h, hrep => by
+    simp only [placeBytes] at h ⊢
+    refine ⟨placeCells b 0 0 (cellsOf g 0 0 8), ?_, ?_, placeCells_scalars 0 _ 0 b⟩
+    · have := rank_parse fen 0 hr (cellsOf g 0 0 8) 0 0 b ix (fuel + 1) (32 :: t) (cellsOf_real g hg 0 0 8)
+        (by simp [cellsOf_length]) h
+      simp only [Int.natCast_zero] at this ⊢
+      rw [this]
+      exact posLoop_space _ _ _ _ (rest_append h)
+    · simpa using placeCells_rep g hg 0 hr 8 0 b (by omega) hrep
+  | r + 1, hr, b, ix, fuel, t, h, hrep => by
+    simp only [placeBytes] at h ⊢
+    rw [List.append_assoc] at h
+    have hb1 : Rep (placeCells b (r + 1) 0 (cellsOf g (r + 1) 0 8)) (below g r 0) := by
+      have := placeCells_rep g hg (r + 1) hr 8 0 b (by omega) hrep
+      apply this.congr_cfg
+      intro s
+      unfold below
+      have : (r + 1 < s / 8 ∨ (s / 8 = r + 1 ∧ s % 8 < 0 + 8)) ↔ (r < s / 8 ∨ (s / 8 = r ∧ s % 8 < 0)) := by omega
+      simp only [this]
+    obtain ⟨b', hb', hrep', hsc'⟩ := placement_parse fen g hg r (by omega) _
+      (ix + (rankBytes (cellsOf g (r + 1) 0 8) 0).length + 1) fuel t
+      (by simpa using (rest_cons (rest_append h)).2.2) hb1
+    refine ⟨b', ?_, hrep', (placeCells_scalars (r + 1) _ 0 b).trans hsc'⟩
+    have := rank_parse fen (r + 1) hr (cellsOf g (r + 1) 0 8) 0 0 b ix
+      ((placeBytes g r).length + (fuel + 1) + 1) (47 :: (placeBytes g r ++ 32 :: t)) (cellsOf_real g hg _ 0 8)
+      (by simp [cellsOf_length]) h
+    rw [show (rankBytes (cellsOf g (r + 1) 0 8) 0 ++ 47 :: placeBytes g r).length + (fuel + 1) =
+        (rankBytes (cellsOf g (r + 1) 0 8) 0).length + ((placeBytes g r).length + (fuel + 1) + 1) from by
+          simp; omega]
+    simp only [Int.natCast_zero] at this
+    rw [this, posLoop_slash _ _ _ _ (rest_append h) (by omega)]
+    rw [show ((r + 1 : Nat) : Int) - 1 = (r : Int) from by omega, hb']
+    simp only [List.length_append, List.length_cons]
+    congr 2
+    omega
+
+/-! ### the printer shows `manAt` -/
+
+theorem cellAt_eq_manAt {b : Board} (h : WF b) (s : Nat) : cellAt b s = b.manAt s := by
+  unfold cellAt manAt
+  by_cases hs : s < 64
+  · have hd := h.disj_at s
+    have hc := h.col s hs
+    cases hw : (b.colorBB .white).getLsbD s <;> cases hb : (b.colorBB .black).getLsbD s <;>
+      simp_all
+  · have hw : ∀ d, (b.colorBB d).getLsbD s = false := fun d => BitVec.getLsbD_of_ge _ _ (by omega)
+    have hp : b.pieceAt s = Piece.none := by
+      simp [pieceAt, vgetD_eq, hs]
+    simp [hw, hp]
+
+theorem empty_rep : Rep Board.empty (fun _ => none) := by
+  refine ⟨by simp, ?_, ?_, ?_⟩
+  · intro s hs; simp [pieceAt, Board.empty, Cfg.kind, vgetD_eq, hs]
+  · intro p s _; simp [pieceBB, Board.empty, vgetD_eq]
+  · intro c s _; simp [colorBB, Board.empty, vgetD_eq]
+
 end Fen
 end ChessVerif
